@@ -393,6 +393,14 @@ theorem C14_reader_file_verbatim (s : List Char) : readFile (embed s) = some s :
 theorem C14_reader_file_rejects_iff (inp : List Sym) : readFile inp = none ↔ Sym.bad ∈ inp :=
   decode_none_iff inp
 
+/-- stdin read with `read_to_string` (the proposed repair `patches/C14-import-stdin-verbatim.patch`; the
+    translator selects this reader when import.rs contains it): verbatim, and an error exactly for
+    input that is not valid UTF-8 — the same function as `--file`. -/
+theorem C14_reader_stdin_verbatim (s : List Char) (inp : List Sym) :
+    readStdinVerbatim (embed s) = some s ∧ (readStdinVerbatim inp = none ↔ Sym.bad ∈ inp) ∧
+    readStdinVerbatim inp = readFile inp :=
+  ⟨decode_embed s, decode_none_iff inp, rfl⟩
+
 /-- **stdin, exact characterisation for every text**: the parser receives the text with every `'\r'`
     that immediately precedes a `'\n'` removed and with a final `'\n'` appended if the (non-empty) text
     lacks one.  Nothing else: no line is dropped, merged, trimmed or reordered. -/
@@ -571,6 +579,7 @@ end Reader
 #print axioms C14_roundtrip_needs_unique_names
 #print axioms Reader.C14_reader_file_verbatim
 #print axioms Reader.C14_reader_file_rejects_iff
+#print axioms Reader.C14_reader_stdin_verbatim
 #print axioms Reader.C14_reader_stdin_exact
 #print axioms Reader.C14_reader_final_newline
 #print axioms Reader.C14_reader_preserves_document
